@@ -362,3 +362,13 @@ impl TryFrom<&Link> for Rc<str> {
         Err(error!(SyntaxError; "EXPECTED STRING LITERAL"))
     }
 }
+
+#[cfg(basic_lang_verif)]
+impl Link {
+    pub fn verif_data_pos(&self) -> Address {
+        self.data_pos
+    }
+    pub fn verif_data_len(&self) -> usize {
+        self.data.len()
+    }
+}
